@@ -35,3 +35,34 @@ Fixpoint find_for (attr : string) (s : stmt) {struct s} : option stmt :=
 
 Fixpoint find_for_in (attr : string) (l : list stmt) : option stmt :=
   match l with [] => None | x :: r => match find_for attr x with Some f => Some f | None => find_for_in attr r end end.
+
+(* all such loops in document order (a matching loop is not searched further) *)
+Fixpoint find_fors (attr : string) (s : stmt) {struct s} : list stmt :=
+  let find_in := (fix find_in (l : list stmt) : list stmt := match l with [] => [] | x :: r => find_fors attr x ++ find_in r end) in
+  match s with
+  | SFor x it test body => if is_typedef_attr attr it then [s] else find_in body
+  | SIf _ t elifs f =>
+      find_in t ++ (fix go (l : list (expr * list stmt)) : list stmt := match l with [] => [] | (_, b) :: r => find_in b ++ go r end) elifs ++ find_in f
+  | SCallBlock _ body | SBlock _ body | SMacro _ _ body => find_in body
+  | _ => []
+  end.
+Definition find_fors_in (attr : string) (l : list stmt) : list stmt := flat_map (find_fors attr) l.
+Definition nth_for (attr : string) (k : nat) (l : list stmt) : option stmt := nth_error (find_fors_in attr l) k.
+
+(* the first if-statement (document order) whose condition tests  '<tag>' in type_def.deriving  (possibly inside and/or) *)
+Fixpoint tests_deriving (tag : string) (e : expr) : bool :=
+  match e with
+  | ECmp "in" (EStr t) (EAttr (EVar "type_def") "deriving") => String.eqb t tag
+  | EAnd a b | EOr a b => tests_deriving tag a || tests_deriving tag b
+  | _ => false
+  end.
+Fixpoint find_ifs (tag : string) (s : stmt) {struct s} : list stmt :=
+  let find_in := (fix find_in (l : list stmt) : list stmt := match l with [] => [] | x :: r => find_ifs tag x ++ find_in r end) in
+  match s with
+  | SIf c t elifs f =>
+      if tests_deriving tag c then [s]
+      else find_in t ++ (fix go (l : list (expr * list stmt)) : list stmt := match l with [] => [] | (_, b) :: r => find_in b ++ go r end) elifs ++ find_in f
+  | SFor _ _ _ body | SCallBlock _ body | SBlock _ body | SMacro _ _ body => find_in body
+  | _ => []
+  end.
+Definition find_if_tag (tag : string) (l : list stmt) : option stmt := hd_error (flat_map (find_ifs tag) l).
